@@ -14,6 +14,8 @@ use crate::base::{
 };
 
 const MAX_DENOMINATOR: i32 = 12;
+/// Maximal order of a crystallographic point group (finite subgroup of GL(3, Z))
+const MAX_POINT_GROUP_ORDER: usize = 48;
 
 // Hall symbol. See A1.4.2.3 in ITB (2010).
 //
@@ -65,12 +67,17 @@ impl HallSymbol {
             generators.push(Operation::new(rotation, translation_mod1));
         }
 
-        Some(Self {
+        let hall_symbol = Self {
             hall_symbol: hall_symbol.to_string(),
             centering: lattice_symbol,
             centering_translations,
             generators,
-        })
+        };
+        if hall_symbol.traverse().len() > MAX_POINT_GROUP_ORDER {
+            debug!("Generators do not form a finite group.");
+            return None;
+        }
+        Some(hall_symbol)
     }
 
     /// Traverse all the symmetry operations up to translations by conventional cell.
@@ -90,6 +97,10 @@ impl HallSymbol {
             }
             entry.or_insert(ops_lhs.translation);
             operations.push(ops_lhs.clone());
+            if operations.len() > MAX_POINT_GROUP_ORDER {
+                // Generators of infinite order: no crystallographic point group is this large
+                break;
+            }
 
             for rhs in self.generators.iter() {
                 let new_ops = ops_lhs.clone() * rhs.clone();
@@ -175,12 +186,17 @@ impl MagneticHallSymbol {
             ));
         }
 
-        Some(Self {
+        let magnetic_hall_symbol = Self {
             magnetic_hall_symbol: magnetic_hall_symbol.to_string(),
             centering: lattice_symbol,
             centering_translations,
             generators,
-        })
+        };
+        if magnetic_hall_symbol.traverse().len() > 2 * MAX_POINT_GROUP_ORDER {
+            debug!("Generators do not form a finite group.");
+            return None;
+        }
+        Some(magnetic_hall_symbol)
     }
 
     /// Traverse all the magnetic symmetry operations up to translations by conventional cell.
@@ -200,6 +216,10 @@ impl MagneticHallSymbol {
             }
             entry.or_insert(ops_lhs.operation.translation);
             operations.push(ops_lhs.clone());
+            if operations.len() > 2 * MAX_POINT_GROUP_ORDER {
+                // Generators of infinite order: no magnetic point group is this large
+                break;
+            }
 
             for rhs in self.generators.iter() {
                 let new_ops = ops_lhs.clone() * rhs.clone();
